@@ -1945,6 +1945,10 @@ FN_NAME(init,_):
 
 	GCM_INIT arg1, arg2, arg3, arg4, arg5
 
+%ifdef SAFE_DATA
+	clear_scratch_xmms_avx_asm
+%endif ;; SAFE_DATA
+
 %ifidn __OUTPUT_FORMAT__, win64
 	vmovdqu	xmm6 , [rsp + 0*16]
 	add	rsp, 1*16
